@@ -14,11 +14,14 @@ ASSUMPTIONS = ["time items strictly increasing (unit / constant step d>0 / arbit
                "survival table entries in [0,1]; diagonal entries >= 1/20 for the stock-driven classes",
                "scipy.linalg.solve_triangular satisfies its documented contract (lapack solver); np.allclose only guards a warning (both outcomes explored)"]
 OUTSIDE = ["more than n time steps (see bounds)", "IEEE rounding", "LAPACK internals", "scipy distribution kernels (symbolic tier uses a free table; linear tier uses their float output as exact rationals)"]
+VARIANTS = 'same stock object computed before; every array handed over as a transposed view (two label dimensions); a second model on another grid'
 BOUNDS = {
     "quick": dict(symbolic_tier="n in {3,4}, one extra dimension of length 2 (and none), grids unit/const/uneven, 4 stock classes",
                   real_class_tier="n in {3,4}, the five shipped lifetime classes with symbolic scalar parameters (scipy kernels as uninterpreted functions), symbolic grid"),
     "thorough": dict(symbolic_tier="n in 3..8, extra dims (), (2,), (2,2) (n>=6: up to (2,); n=8: none)", real_class_tier="n in 3..6, inflow_at start/middle/end and 3-point quadrature"),
 }
+for _t in BOUNDS.values():
+    _t["variants_beyond_the_base_enumeration"] = VARIANTS
 # dtype shadow: every shadowed configuration is run once more on integer-dtype arrays (differential concrete run)
 DTYPE_SHADOW = lambda cfg: cfg["h"] == "conserve"
 OPTS = {"quick": dict(shadow_every=4, timeout_ms=20000), "thorough": dict(shadow_every=6, timeout_ms=120000)}
